@@ -261,6 +261,21 @@ def run_roots_shard(job):
                 g, gc, s, text = e1.pipeline(n, st)
                 res["exec"] += 1
                 emitted.setdefault(s, (st, text))
+                if prop in ("C03", "C05") and n >= 2:
+                    # strings emitted for graph-level descriptions of the same molecule (iteration order != label order)
+                    import networkx as nx
+                    from tucan.canonicalization import canonicalize_molecule
+                    from tucan.serialization import serialize_molecule
+
+                    for h in (gc, nx.relabel_nodes(g, {0: n - 1, n - 1: 0}, copy=True)):
+                        try:
+                            s_d = serialize_molecule(canonicalize_molecule(h))
+                        except Exception as ex:
+                            res["vios"].append((f"{prop}|derived-exc", {"kind": "string-of-molfile", "n": n, "molfile": text,
+                                                                       "summary": f"graph-level description raised {ex!r}"}))
+                            continue
+                        res["exec"] += 1
+                        emitted.setdefault(s_d, (st, text))
             for s, (st, text) in emitted.items():
                 cols = e1.resolve(st[0])
                 bonds = G.edges_of(n, st[1])
@@ -485,8 +500,9 @@ def replay(prop, rec):
         out = check_c11(rec["canonical"], "thorough", cnt)
         hit = [m for k, m, s2 in out if s2 == rec["respelling"]]
         return bool(hit), "; ".join(hit) or f"respelling {rec['respelling']!r} now normalises to {rec['canonical']!r}"
-    g = graph_from_molfile_text(rec["molfile"])
-    s = tucan_of(g)
+    import networkx as nx
+    from tucan.canonicalization import canonicalize_molecule
+
     g = graph_from_molfile_text(rec["molfile"])
     if "expect_cols" in rec:
         cols = [tuple(c) for c in rec["expect_cols"]]
@@ -494,5 +510,14 @@ def replay(prop, rec):
         n = len(cols)
     else:
         n, cols, bonds = encode_graph(g)
-    msg = check_c03(s, n, cols, bonds, None) if prop == "C03" else check_c05(s, n, cols, bonds)
-    return bool(msg), f"tucan = {s[:200]!r}: {msg}"
+    emitted = [tucan_of(graph_from_molfile_text(rec["molfile"]))]
+    if n >= 2 and "expect_cols" not in rec:
+        gc = canonicalize_molecule(graph_from_molfile_text(rec["molfile"]))
+        emitted.append(tucan_of(gc))
+        emitted.append(tucan_of(nx.relabel_nodes(g, {0: n - 1, n - 1: 0}, copy=True)))
+    msgs = []
+    for s in dict.fromkeys(emitted):
+        msg = check_c03(s, n, cols, bonds, None) if prop == "C03" else check_c05(s, n, cols, bonds)
+        if msg:
+            msgs.append(f"{s[:200]!r}: {msg}")
+    return bool(msgs), "; ".join(msgs) or f"emitted strings {emitted} are fine"
